@@ -43,6 +43,12 @@ def run(rep, tier, seed, replay):
         if mc[k] not in ("accept", "reject"):
             rep.violation("correspondence", "parse: the crate parses an expression the parser model rejects", {"expr": e}, impl=i["raw"][:200], model=mc[k])
             continue
+        mo = P.model[k]
+        if not i["ok"] and (mo.get("err") != i.get("err") or mo.get("spans") != i.get("spans")):
+            rep.stats["correspondence-broken"] += 1
+            rep.violation("correspondence", "rule check: kind and span of the reported rule error vs the queue model (check)", {"expr": e}, impl=i["raw"][:200], model=mo["raw"][:200])
+        elif not i["ok"]:
+            rep.stats["rule-error-identity-equals-model"] += 1
         if mc[k] != iv:
             rep.stats["correspondence-broken"] += 1
             rep.violation("correspondence", "rule check: accept/reject verdict of Glob::new vs the structural checker checkS", {"expr": e}, impl=i["raw"][:200], model=mc[k])
